@@ -32,6 +32,8 @@ struct VerifState {
     violated: AtomicUsize,
     /// number of `alloc` calls that were refused
     refused: AtomicUsize,
+    /// exactly the `fail_only`-th (0-based) `alloc` call fails
+    fail_only: AtomicUsize,
 }
 
 #[cfg(jxl_oxide_verif)]
@@ -44,6 +46,7 @@ impl VerifState {
             limit_total: AtomicUsize::new(limit),
             violated: AtomicUsize::new(0),
             refused: AtomicUsize::new(0),
+            fail_only: AtomicUsize::new(usize::MAX),
         }
     }
 }
@@ -74,6 +77,12 @@ impl AllocTracker {
     /// Number of times `outstanding > limit_total` was observed right after an allocation.
     pub fn verif_limit_violations(&self) -> usize {
         self.inner.verif.violated.load(Ordering::SeqCst)
+    }
+
+    /// Make exactly the `n`-th (0-based) `alloc` call fail, as a budget does that is too small for
+    /// one large request but not for the smaller ones after it. `usize::MAX` disables the fault.
+    pub fn verif_set_fail_only(&self, n: usize) {
+        self.inner.verif.fail_only.store(n, Ordering::SeqCst);
     }
 
     /// Number of `alloc` calls refused so far (budget exhausted or injected fault).
@@ -107,7 +116,9 @@ impl AllocTracker {
         #[cfg(jxl_oxide_verif)]
         {
             let n = self.inner.verif.count.fetch_add(1, Ordering::SeqCst);
-            if n >= self.inner.verif.fail_from.load(Ordering::SeqCst) {
+            if n >= self.inner.verif.fail_from.load(Ordering::SeqCst)
+                || n == self.inner.verif.fail_only.load(Ordering::SeqCst)
+            {
                 self.inner.verif.refused.fetch_add(1, Ordering::SeqCst);
                 return Err(crate::OutOfMemory::new(bytes));
             }
